@@ -31,14 +31,26 @@ impl writer::Normalized for SpyWriter {}
 struct TracedSubject {
     fut: futures::future::LocalBoxFuture<'static, ()>,
     dispatch: tracing::Dispatch,
+    /// poll the run inside a user span that encloses everything
+    outer: bool,
+    outer_span: Option<tracing::Span>,
 }
 
 impl Subject for TracedSubject {
     fn poll(&mut self, cx: &mut TaskCx<'_>) -> SubjPoll {
         let fut = &mut self.fut;
-        tracing::dispatcher::with_default(&self.dispatch, || match fut.poll_unpin(cx) {
-            std::task::Poll::Ready(()) => SubjPoll::Done,
-            std::task::Poll::Pending => SubjPoll::Pending,
+        let (outer, slot) = (self.outer, &mut self.outer_span);
+        tracing::dispatcher::with_default(&self.dispatch, || {
+            let mut poll = || match fut.poll_unpin(cx) {
+                std::task::Poll::Ready(()) => SubjPoll::Done,
+                std::task::Poll::Pending => SubjPoll::Pending,
+            };
+            if outer {
+                let span = slot.get_or_insert_with(|| tracing::info_span!("user outer span", user = 1));
+                span.in_scope(poll)
+            } else {
+                poll()
+            }
         })
     }
 }
@@ -68,7 +80,8 @@ macro_rules! make_subject {
             let _ = c.run(()).await;
         }
         .boxed_local();
-        let b: Box<dyn Subject> = Box::new(TracedSubject { fut, dispatch });
+        let b: Box<dyn Subject> =
+            Box::new(TracedSubject { fut, dispatch, outer: cfg.outer_span, outer_span: None });
         b
     }};
 }
@@ -114,8 +127,12 @@ pub fn family(tier: Tier) -> Vec<Config> {
                         if !hooks && (fault == "before" || fault == "after") {
                             continue;
                         }
-                        for conc in [Some(1usize), Some(2)] {
+                        for (conc, outer) in [(Some(1usize), false), (Some(2), false), (Some(2), true)] {
+                            if outer && (gates == GateMode::All || fault != "none") {
+                                continue;
+                            }
                             let mut cfg = Config::default();
+                            cfg.outer_span = outer;
                             let mut tags: Vec<&str> = vec![];
                             if retry > 0 {
                                 tags.push("retry(1)");
@@ -157,8 +174,9 @@ pub fn family(tier: Tier) -> Vec<Config> {
                             }
                             cfg.max_execs = if tier == Tier::Quick { 4_000 } else { 400_000 };
                             cfg.name = format!(
-                                "trace/n{nsc}|lb{lb}la{la}|r{retry}|{fault}|g{gates:?}|c{conc:?}|hooks{}",
-                                u8::from(hooks)
+                                "trace/n{nsc}|lb{lb}la{la}|r{retry}|{fault}|g{gates:?}|c{conc:?}|hooks{}|outer{}",
+                                u8::from(hooks),
+                                u8::from(outer)
                             );
                             out.push(cfg);
                         }
